@@ -170,6 +170,13 @@ def summarize(fam, label, res, ex, t0, text):
         if r.outcome == 'panic':
             out['cex'].append({'kind': 'panic', 'note': '%s panics: %s' % (label, r.panic['msg']), 'model': r.model, 'status': 'reproduced', 'role': 'panic:' + label})
             continue
+        for ob in (getattr(r, 'obligations', None) or []):
+            key = 'ob:' + ob['msg'][:60]
+            if key in seen:
+                continue
+            seen.add(key)
+            out['cex'].append({'kind': 'panic', 'note': '%s can panic: %s [model %s]' % (label, ob['msg'], ob.get('model')), 'model': ob.get('model'), 'status': 'reproduced',
+                               'role': 'panic:' + label})
         for n in (r.value or []):
             if n in seen:
                 continue
@@ -255,7 +262,14 @@ def file_case():
     return Case('file/preprocess', work)
 
 
-def pp_case(lib):
+SEG_LAYOUTS = [
+    [(4, 'a.sv', 10), (3, None, 0), (5, 'b.svh', 0)],
+    # the text starts with bytes that have no origin (a predefined macro, `__LINE__) and ends with such bytes
+    [(3, None, 0), (4, 'a.sv', 10), (5, 'b.svh', 0), (2, None, 0)],
+]
+
+
+def pp_case(lib, layout=0):
     """parse_X_pp: parser selection by allow_incomplete, result assembly, error location mapping"""
     name = 'parse_%s_pp' % ('lib' if lib else 'sv')
     strict, incompl = ('lib_parser', 'lib_parser_incomplete') if lib else ('sv_parser', 'sv_parser_incomplete')
@@ -265,7 +279,7 @@ def pp_case(lib):
         t0 = time.time()
         f_new = E.fn('new', lambda e: e.retnorm == 'PreprocessedText')
         f_push = E.fn('push', lambda e: e.argnorm and e.argnorm[0] == '&PreprocessedText')
-        segs = [(4, 'a.sv', 10), (3, None, 0), (5, 'b.svh', 0)]
+        segs = SEG_LAYOUTS[layout]
         total = sum(s[0] for s in segs)
 
         def args_fn(it):
@@ -347,8 +361,8 @@ def pp_case(lib):
             return notes
         stubs = [(r'^(sv_parser|sv_parser_incomplete|lib_parser|lib_parser_incomplete)$', stub_parser)]
         res, ex, f = A.run_wrapper((name,), args_fn, stubs, check)
-        return summarize('two-step', name, res, ex, t0, 'parser outcome (Ok | Error at p | Failure at p | Incomplete), p and allow_incomplete symbolic; text = 3 real segments')
-    return Case('pp/' + name, work)
+        return summarize('two-step', name, res, ex, t0, 'parser outcome (Ok | Error at p | Failure at p | Incomplete), p and allow_incomplete symbolic; text = %d real segments' % len(segs))
+    return Case('pp/' + name + ('' if layout == 0 else '/layout%d' % layout), work)
 
 
 def all_cases():
@@ -356,7 +370,8 @@ def all_cases():
     for lib in (False, True):
         for via_str in (False, True):
             cs.append(wrapper_case(None, lib, via_str))
-        cs.append(pp_case(lib))
+        for k in range(len(SEG_LAYOUTS)):
+            cs.append(pp_case(lib, k))
     cs.append(file_case())
     return cs
 
